@@ -14,6 +14,7 @@ prop(
     level_note="Bounds are virtual-time bounds; the simulated network replaces sockets. Operation kinds whose io::Error does not wrap the connection error are only checked for 'failed', not for the kind.",
     design_ref="DESIGN.md §3 C17",
     legs=[dict(name="sim", crate="l2", sub="c17", shards={Q: 16, T: 16}, budget={Q: 40, T: 400}, timeout={Q: 900, T: 7200})],
-    floors={Q: {"pending_ops_resolved_with_error": 800, "later_ops_failed_at_once": 400, "terminated_observed": 100, "sets.op_kinds_resolved": 40, "idle_not_before_checks": 10, "state_updates_seen": 300}},
+    floors={Q: {
+            "pending_reads_with_known_final_size_and_gap_resolved": 200,"pending_ops_resolved_with_error": 800, "later_ops_failed_at_once": 400, "terminated_observed": 100, "sets.op_kinds_resolved": 40, "idle_not_before_checks": 10, "state_updates_seen": 300}},
     assumptions=["virtual time drives every timer", "hook H3 only appends frame bytes to a packet the honest endpoint was sending anyway"],
 )
